@@ -426,4 +426,21 @@ var tours = []struct {
 		}
 		return cc
 	}},
+	{"ejection-wave-capped-activation-churn", func(rt *rapid.T) *sim.ChainCase {
+		// partial participation with large base rewards: the non-attesters of an epoch fall below the
+		// ejection balance together, several are ejected at one boundary while get_validator_churn_limit
+		// (n/4) exceeds MAX_PER_EPOCH_ACTIVATION_CHURN_LIMIT: from Deneb on activations are capped, exits are not
+		fork := rapid.SampledFrom([][4]uint64{{1, 1, 1, 1}, {1, 1, 1, 2}, {1, 2, 2, 2}, {1, 1, 1, farE}, {farE, farE, farE, farE}}).Draw(rt, "forks")
+		cc := &sim.ChainCase{Profile: "full"}
+		cc.Config = tourConfig(rt, fork, map[string]uint64{"EJECTION_BALANCE": 31_750_000_000,
+			"BASE_REWARD_FACTOR":                   rapid.SampledFrom([]uint64{1 << 13, 1 << 14, 1 << 15}).Draw(rt, "brf"),
+			"MAX_PER_EPOCH_ACTIVATION_CHURN_LIMIT": rapid.SampledFrom([]uint64{1, 2, 3}).Draw(rt, "cap"),
+			"MIN_PER_EPOCH_CHURN_LIMIT":            rapid.SampledFrom([]uint64{1, 2}).Draw(rt, "churn"), "CHURN_LIMIT_QUOTIENT": 4})
+		cc.Genesis = genesisN(rt, rapid.IntRange(16, 32).Draw(rt, "n"), true)
+		part := rapid.IntRange(300, 800).Draw(rt, "part")
+		for s := 1; s <= 28; s++ {
+			cc.Actions = append(cc.Actions, sim.Action{Kind: "block", Slots: 1, Plan: fullBlock(rt, part)})
+		}
+		return cc
+	}},
 }
